@@ -1,4 +1,5 @@
 """C14 — parse/serialize are locale-independent and leave the caller's locale untouched."""
+import os
 import random
 import re
 
@@ -52,7 +53,12 @@ def shard_fn(shard, nshards, seed, tier, exe, ntexts, ntrees):
         toks, _v = tg.tree()
         if rng.random() < 0.6:
             toks = ["["] + [x for _ in range(rng.choice([1, 3])) for x in tg.double()[0]] + ["]"]
-        trees.append((toks, rng.randrange(64)))
+        rfmt = None
+        if rng.random() < 0.5:
+            # the printf grammar at large: literal text around the conversion, flags, width, precision, every floating conversion
+            rfmt = (rng.choice(["", "", "x", "<", "v="]) + "%" + "".join(f for f in "-+ #0" if rng.random() < 0.2) + rng.choice(["", "", "1", "8", "12", "25"]) +
+                    rng.choice(["", ".0", ".1", ".3", ".17"]) + rng.choice("feEgGf") + rng.choice(["", "", "y", ">", " units"])).encode()
+        trees.append((toks, rng.randrange(64), rfmt))
     cases = []
     for cfg in (0, 1, 2, 3):
         cmds = ["LOC %d" % cfg]
@@ -63,10 +69,10 @@ def shard_fn(shard, nshards, seed, tier, exe, ntexts, ntrees):
             if mode == 1 and (len(cmds) % 3) == 0:
                 # the same text fed incrementally: numbers straddle calls, every call is monitored
                 cmds.append("LPC %d %d %d x%s" % (flags, depth, 1 + (len(cmds) // 3) % 7, t.hex()))
-        for ti, (toks, flags) in enumerate(trees):
+        for ti, (toks, flags, rfmt) in enumerate(trees):
             cmds += ["B 0 " + " ".join(toks), "LS 0 %d" % flags]
             k = ti % 6
-            fmt = [b"%.3f", b"%.1f", b"%e", b"%.10g", b"%f", b"%.0f"][(ti // 6) % 6]
+            fmt = [b"%.3f", b"%.1f", b"%e", b"%.10g", b"%f", b"%.0f"][(ti // 6) % 6] if rfmt is None else rfmt
             if k == 1:      # global custom double format
                 cmds += ["DFMT 0 x" + fmt.hex(), "LS 0 %d" % flags, "DFMT 0 -"]
             elif k == 2:    # per-thread custom double format
@@ -145,8 +151,12 @@ def run(tier, seed):
     locale_synth.ensure()
     bdir = build.build("asan")
     chk = core.Check(PID, tier, seed)
+    rd = core.record_dir(PID) if tier == "thorough" else None
     sh = core.parallel(shard_fn, seed=seed, tier=tier, exe=bdir + "/jcdrv", ntexts=16000 if tier == "quick" else 100000, ntrees=8000 if tier == "quick" else 100000)
     chk.absorb(sh)
+    if rd:
+        os.environ.pop("VF_RECORD_DIR", None)
+        core.memcheck_recorded(chk, build.build("plain"), rd)
     seen = {k for k in chk.merged.counters if ".outcome-" in k}
     missing = []
     for cfg in (1, 2, 3):
